@@ -337,6 +337,10 @@ func WitnessResult(stillFails bool, detail string) {
 
 // Guard runs f and converts a recoverable panic into a value.
 func Guard(f func()) (pv any) {
+	if os.Getenv("VERIF_NOGUARD") != "" { // development aid: let the panic print its stack
+		f()
+		return nil
+	}
 	defer func() {
 		if r := recover(); r != nil {
 			pv = r
